@@ -576,6 +576,40 @@ func scenario(c *run.Ctx, idx int) {
 		c.Case(fmt.Sprintf("d%d signers%d %v", nDep, nS, names), len(eff) > 0 && len(eff) < len(cs),
 			map[string]interface{}{"scenario": idx, "round": round, "multisig_signers": nS, "weights": ws, "operators": names, "offered": len(cs), "packaged": len(eff)})
 	}
+	// stale authorisation: transactions that were correctly signed under the OLD signer set, presented once without
+	// taking effect (the sender could not afford them), must not take effect after the signers were rotated
+	// (multisig -> other signers; plain -> multisig) and the account was funded.
+	e := exp()
+	rich := fx.LEMO(90000000)
+	to := U[6].Addr
+	staleMS := signSender(B.Unsigned(params.OrdinaryTx, ms.addr, &to, rich, 900000, nil, e), false, ms.quorum()...)
+	stalePlain := signSender(B.Unsigned(params.OrdinaryTx, U[7].Addr, &to, rich, 900000, nil, e+1), false, U[7])
+	stalePayer := types.GasPayerSignatureTx(signSender(types.NewReimbursementTransaction(U[8].Addr, to, mp.addr, fx.LEMO(1), nil, params.OrdinaryTx, W.ChainID, e+2, "", ""), true, U[8]), new(big.Int).Mul(fx.GasPrice, big.NewInt(1000000000)), 900000)
+	stalePayer = signPayer(stalePayer, mp.quorum()...)
+	first := []cand{{tx: staleMS, kind: "stale:first-presentation-multisig"}, {tx: stalePlain, kind: "stale:first-presentation-plain"}, {tx: stalePayer, kind: "stale:first-presentation-payer"}}
+	if b, eff := step(first, "stale authorisation: first presentation"); b == nil || len(eff) != 0 {
+		c.Note("stale-authorisation sequence: first presentation was packaged or failed; skipped")
+		return
+	}
+	newKeys := []fx.Key{fx.NewKey(fmt.Sprintf("rotated-%d", idx), 0), fx.NewKey(fmt.Sprintf("rotated-%d", idx), 1)}
+	rot := types.Signers{{Address: newKeys[0].Addr, Weight: 60}, {Address: newKeys[1].Addr, Weight: 60}}
+	rotate := []cand{
+		{tx: signSender(B.ModifySignersUnsigned(ms.addr, ms.addr, rot, exp()), false, ms.quorum()...), kind: "stale:rotate-multisig-signers", expect: true},
+		{tx: B.ModifySigners(U[7], U[7].Addr, rot, exp()), kind: "stale:plain-becomes-multisig", expect: true},
+		{tx: signSender(B.ModifySignersUnsigned(mp.addr, mp.addr, rot, exp()), false, mp.quorum()...), kind: "stale:rotate-payer-signers", expect: true},
+		{tx: B.Transfer(W.Founder, ms.addr, fx.LEMO(200000000), exp()), kind: "fund", expect: true},
+		{tx: B.Transfer(W.Founder, U[7].Addr, fx.LEMO(200000000), exp()), kind: "fund", expect: true},
+		{tx: B.Transfer(W.Founder, mp.addr, fx.LEMO(200000000), exp()), kind: "fund", expect: true},
+	}
+	if b, eff := step(rotate, "stale authorisation: rotation"); b == nil || len(eff) != len(rotate) {
+		c.Note("stale-authorisation sequence: rotation not fully packaged; skipped")
+		return
+	}
+	second := []cand{{tx: fx.WireTx(staleMS), kind: "stale:after-signer-rotation-multisig"}, {tx: fx.WireTx(stalePlain), kind: "stale:after-plain-became-multisig"}, {tx: fx.WireTx(stalePayer), kind: "stale:after-payer-signer-rotation"}}
+	if b, _ := step(second, "stale authorisation: second presentation"); b != nil {
+		c.Stat("stale_authorisation_sequences", 1)
+		c.Case(fmt.Sprintf("d%d stale-authorisation", nDep), true, map[string]interface{}{"scenario": idx, "sequence": "sign under old signers, present (unaffordable), rotate signers + fund, present again"})
+	}
 }
 
 func runAll(c *run.Ctx) {
